@@ -74,6 +74,9 @@ ConvertWhy(e) ==
              ELSE IF ~auto /\ r.prec # e.tprec THEN "wrong-result-precision"
              ELSE IF auto /\ x.prec > 0 /\ ~PowLe(tb, r.prec, B, x.prec) THEN "result-precision-exceeds-source"
              ELSE IF r.prec = 0 THEN (IF QEq(FVal(tb, rf), xq) /\ o.flag = "Exact" THEN "" ELSE "inexact-at-unlimited-precision")
+             \* residual bound of the known large-exponent findings: an error of two units or more is its own clause
+             ELSE IF r.exp > 6000 \/ r.exp < -6000 THEN "error-ge-2ulp"
+             ELSE IF ~QIsZero(xq) /\ ~QLt(QAbs(QSub(FVal(tb, rf), xq)), QMulInt(Ulp(tb, r.prec, xq), IFromNative(2))) THEN "error-ge-2ulp"
              ELSE RoundedWhy(tb, r.prec, mode, xq, rf, o.flag)
 
 \* ---------------------------------------------------------------- import of f32 / f64
